@@ -44,6 +44,13 @@ open SymList
 /-- Invariant of `SymbolList::new`: one entry per address, strictly increasing. -/
 theorem C05_obj_sorted (d : Desc) : StrictSorted (build d) := build_strict d
 
+/-- "Best to worst": for every address, the entry of the final list is the first entry that was pushed with
+that address — sources in the order symbols, dynamic symbols, exports, function starts, entry point, end
+addresses (stable sort + `dedup_by_key`). Together with `C05_obj_sorted` it is the only entry at that address. -/
+theorem C05_obj_keeps_best (d : Desc) (p : Nat) :
+    (build d).find? (fun e => e.addr == p) = (parts d).find? (fun e => e.addr == p) :=
+  build_keeps_first d p
+
 /-- A successful lookup, in any of the three address forms, returns a symbol that starts at or before the
 relative address the lookup address stands for and (a size is always reported) ends after it. -/
 theorem C05_contains_obj (demangle : Name → Name) (framesPanic : Nat → Bool) (d : Desc) (ranges : List Range)
